@@ -572,6 +572,39 @@ theorem C08_int_attribute (u64 : Bool) (o : IntOpts) (c : IntConv) (parse : List
     simp [intResult] at hrk; subst hrk
     exact ⟨.int i, (C08_attr_value a _ check (.int i) (.int i) ⟨by simp, by simp⟩).mpr ⟨hr, hk, by intro _; simp⟩⟩
 
+/-! ### primary keys; values read from the database -/
+
+/-- **primary key.** `obj.pk = v` and `obj.set(pk=v)` accept a value iff it passes the attribute's validation (all declared
+    constraints, C08_attr_value) AND equals the key the object already has; a constraint violation is reported before the
+    "cannot change" error -/
+theorem C08_pk_assign (a : AttrOpts) (conv : Val → Res) (check : Val → Bool) (old v r : Val) :
+    assignPk a conv check old v = .ok r ↔ (∃ r', validate a conv check v = .ok r' ∧ keyOf r' = keyOf old) ∧ r = old := by
+  unfold assignPk
+  cases hv : validate a conv check v with
+  | error e => simp
+  | ok r' =>
+    by_cases hk : keyOf r' = keyOf old
+    · simp [hk]; constructor <;> (intro h; exact h.symm)
+    · simp [hk]
+
+theorem C08_pk_assign_error_order (a : AttrOpts) (conv : Val → Res) (check : Val → Bool) (old v : Val) (e : String)
+    (h : validate a conv check v = .error e) : assignPk a conv check old v = .error e := by
+  simp [assignPk, h]
+
+/-- **values read from the database are not validated** (the counterpart of the property: constraints are enforced at the
+    entry points only): whatever the declaration (bounds, size, nullability, required-ness, py_check), an integer the
+    column holds is returned as it is, a text likewise, and NULL is returned as None -/
+theorem C08_from_db_unconstrained (a : AttrOpts) (parse : List Char → Option Int) (i : Int) (s : List Char) :
+    validateDb a (intSql2py parse) (.int i) = .ok (.int i) ∧
+    validateDb a strSql2py (.str s) = .ok (.str s) ∧
+    validateDb a (intSql2py parse) .none = .ok .none ∧ validateDb a strSql2py .none = .ok .none := by
+  refine ⟨rfl, rfl, rfl, rfl⟩
+
+example : assignPk { required := true, nullable := false, noneOk := false, default := none, hasCheck := false }
+    (intValidate (fun _ => none) { minVal := some 0, maxVal := some 127, size := some 8, unsigned := some false }) (fun _ => true) (.int 5) (.int 7) = .error "TypeError" := by rfl
+example : assignPk { required := true, nullable := false, noneOk := false, default := none, hasCheck := false }
+    (intValidate (fun _ => none) { minVal := some 0, maxVal := some 127, size := some 8, unsigned := some false }) (fun _ => true) (.int 5) (.int (-7)) = .error "ValueError" := by rfl
+
 /-! ### non-vacuity: concrete declarations and values -/
 example : intInit false { size := some 8, min := some 0 } = .ok { minVal := some 0, maxVal := some 127, size := some 8, unsigned := some false } := by rfl
 example : intValidate (fun _ => none) { minVal := some 0, maxVal := some 127, size := some 8, unsigned := some false } (.int (-5)) = .error "ValueError" := by rfl
